@@ -263,7 +263,7 @@ def actions(kind):
     return A
 
 
-def _spec(rnd):
+def _spec(rnd, mode=None):
     from bcverif.props.c06 import cds_blocks
     from bcverif.props.c05 import _consistent_frames
 
@@ -280,11 +280,29 @@ def _spec(rnd):
     f0 = rnd.choice([0, 0, 1, 2])
     frames = list(_consistent_frames(cds, st, f0)) if cds else None
     chunk = None
-    if rnd.random() < 0.4:
+    r = rnd.random() if mode is None else {"none": 0.9, "enclosing": 0.1, "cutting": 0.4}[mode]
+    if r < 0.25:
         chunk = (rnd.randrange(0, blocks[0][0] + 1), rnd.randrange(blocks[-1][1], G + 1))
+    elif r < 0.5:
+        # the chunk boundary falls inside a terminal exon (of the CDS when there is one): block count kept, leading /
+        # trailing bases sliced off
+        tb = cds if cds else blocks
+        side = rnd.choice(["lo", "hi", "both", "any"])
+        lo = rnd.randrange(0, tb[0][0] + 1)
+        hi = rnd.randrange(tb[-1][1], G + 1)
+        if side in ("lo", "both") and tb[0][1] - tb[0][0] >= 2:
+            lo = rnd.randrange(tb[0][0] + 1, tb[0][1])
+        if side in ("hi", "both") and tb[-1][1] - tb[-1][0] >= 2:
+            hi = rnd.randrange(tb[-1][0] + 1, tb[-1][1])
+        if side == "any":
+            lo, hi = rnd.randrange(0, blocks[0][1]), rnd.randrange(blocks[-1][0] + 1, G + 1)
+        chunk = (lo, hi) if lo < hi else (tb[0][0], tb[-1][1])
     o0 = rnd.randrange(0, G - 6)
+    vlo, vhi = blocks[0][0], blocks[0][1]
+    if chunk:
+        vlo = min(max(vlo, chunk[0]), vhi - 1)
     return {"root": R, "blocks": blocks, "strand": st, "cds": cds, "frames": frames, "chunk": chunk,
-            "other": [[o0, o0 + rnd.randrange(1, 6)]], "vpos": rnd.randrange(blocks[0][0], blocks[0][1])}
+            "other": [[o0, o0 + rnd.randrange(1, 6)]], "vpos": rnd.randrange(vlo, vhi)}
 
 
 def _replay(args):
@@ -295,10 +313,13 @@ def _replay(args):
     rnd = random.Random(seed)
     acts = actions(kind)
     ev = []
-    for h in hists:
-        sp = _spec(rnd)
+    modes = [None] if kind in ("location", "sequence") else ["none", "enclosing", "cutting", "cutting", "cutting"]
+    for h, mode in [(h, m) for h in hists for m in modes]:
+        sp = _spec(rnd, mode)
         if kind == "cds" and not sp["cds"]:
-            continue
+            sp = _spec(rnd, mode)
+            if not sp["cds"]:
+                continue
         try:
             X, ops = factory(kind, sp)
         except Exception:
@@ -360,10 +381,8 @@ def run(chk):
         hs2 = _parse_hists(r2["out"])
         total_emitted += len(hs2)
         allh = hs + hs2
-        if quick and len(hs) > 500:
-            allh = rnd.sample(hs, 500) + hs2
-        for i in range(8):
-            jobs.append((k, allh[i::8], chk.seed * 907 + i))
+        for i in range(16):
+            jobs.append((k, allh[i::16], chk.seed * 907 + i))
     chk.mc("HistoryMC", "HistoryMC_neg_str.cfg", expect_violation=True, workers=1,
            note="extract_sequence answers a str once codon locations were listed (code before fix 8518d78)")
     chk.mc("HistoryMC", "HistoryMC_neg_merge.cfg", expect_violation=True, workers=1,
@@ -377,8 +396,8 @@ def run(chk):
     chk.trusted += ["TLC", "History.tla alphabets / HistoryMC.tla mechanism model", "harness canon() of answers and "
                     "snapshot() of operands", "the twin factory (same content description, built after Parent.cache_clear())"]
     return chk.finish("call histories generated by TLC from HistoryMC: every ordered pair of accessors/operations/cache "
-                      "actions per object kind (location, sequence, CDS, transcript, gene, collection; quick: 500 sampled "
-                      "pairs per kind) and simulated histories of length 6 with Parent-cache clear/flood/warm, each replayed "
-                      "on a randomly structured real object (1-3 exons, either strand, coding or not, chromosome or chunk "
-                      "parent); last call compared with a fresh twin, operands snapshotted before/after; distinct = "
+                      "actions per object kind (location, sequence, CDS, transcript, gene, collection) and simulated histories of length 6 with Parent-cache clear/flood/warm, each replayed "
+                      "on randomly structured real objects (1-3 exons, either strand, coding or not; for intervals "
+                      "and collections once each on a chromosome parent, an enclosing chunk and a chunk cutting the "
+                      "terminal exons); last call compared with a fresh twin, operands snapshotted before/after; distinct = "
                       "distinct (kind, history)")
